@@ -1486,6 +1486,9 @@ type IndexColumn struct {
 	Collate   string
 	Direction string // ASC, DESC
 	NullsLast bool
+	// NullsFirst records an explicit NULLS FIRST (without it the modifier
+	// written in the statement would be lost)
+	NullsFirst bool
 }
 
 func (i *IndexColumn) expressionNode()     {}
